@@ -59,22 +59,24 @@ type Ctx struct {
 	chaCG   *callgraph.Graph
 	allFns  map[*ssa.Function]bool
 
-	Obl      []*Obligation
-	floors   map[string]int
-	ruleDoc  map[string]string
-	ruleOrd  []string
-	Tables   map[string]any // extracted tables, printed in evidence
-	NotCov   []string
-	Assume   []string
-	curRule  string
-	declIdx  map[*types.Func]*ast.FuncDecl
-	declFile map[*ast.FuncDecl]*packages.Package
-	roles    map[*types.Func]string
-	gmodel   *grammarModel
-	fmodel   *fusionModel
-	sguard   *semiGuard
-	lfacts   *lexFacts
-	gavals   map[*ssa.Global]*aval
+	Obl             []*Obligation
+	floors          map[string]int
+	ruleDoc         map[string]string
+	ruleOrd         []string
+	Tables          map[string]any // extracted tables, printed in evidence
+	NotCov          []string
+	Assume          []string
+	curRule         string
+	declIdx         map[*types.Func]*ast.FuncDecl
+	declFile        map[*ast.FuncDecl]*packages.Package
+	roles           map[*types.Func]string
+	gmodel          *grammarModel
+	fmodel          *fusionModel
+	sguard          *semiGuard
+	lfacts          *lexFacts
+	gavals          map[*ssa.Global]*aval
+	lastFoldRecords []int
+	lastFoldFields  map[*types.Var]*wval
 }
 
 func shortPkg(path string) string {
